@@ -1,6 +1,7 @@
 //! C16 — the HTML tokenizer is lossless and total: implementation side of the correspondence.
 //!
-//! plain case : {"bytes": "<hex>" [, "ctx": "<ASCII context tag>" (new_fragment)] [, "cdata": bool (allow_cdata)]}
+//! plain case : {"bytes": "<hex>" [, "ctx": "<ASCII context tag>" (new_fragment)] [, "cdata": bool (allow_cdata)]
+//!               [, "family": "<name of the boundary family; only a tag>"]}
 //! block case : {"exh": true, "pre": "<hex>", "alpha": "<hex>", "len": L, "lo": a, "n": c [, "expand": true]}
 //!              = the strings pre ++ w for the a-th .. (a+c-1)-th word w of length L over alpha
 //!              (base-|alpha| digits, most significant first); obs = {"n", "tok", "h"} with h the
@@ -324,6 +325,207 @@ fn mutate(rng: &mut Prng, mut b: Vec<u8>) -> Vec<u8> {
     b
 }
 
+// ---------------------------------------------------------------------------------------------
+// boundary families (deterministic; emitted at the start of EVERY run, plus a small random share)
+
+/// the attribute counts at which a narrowed counter / index would wrap or saturate
+const ATTR_COUNTS: &[usize] = &[1, 2, 15, 16, 17, 255, 256, 257, 300, 1000];
+/// token lengths around 2^8, 2^12, 2^13, 2^16
+const LONG_LENS: &[usize] = &[255, 256, 257, 4095, 4096, 4097, 8191, 8192, 8193, 65535, 65536, 70000];
+/// the five ASCII white-space bytes of the HTML spec, then near-misses (VT, NUL, US, and NBSP as U+00A0 in UTF-8 and as a bare 0xA0 byte)
+const WS_BYTES: &[&[u8]] = &[b"\t", b"\n", b"\x0c", b"\r", b" ", b"\x0b", b"\0", b"\x1f", b"\xc2\xa0", b"\xa0", b"\x85", b"\x1c"];
+const NEST_DEPTHS: &[usize] = &[64, 256, 1024];
+
+/// one attribute in quoting style `style` (0 bare key, 1 double, 2 single, 3 unquoted, 4 `k=`-then-next, 5 spaced `=`)
+fn styled_attr(i: usize, style: usize, out: &mut Vec<u8>) {
+    let k = format!("k{i}");
+    let v = format!("v{i}");
+    let s = match style % 6 {
+        0 => k,
+        1 => format!("{k}=\"{v} {i}\""),
+        2 => format!("{k}='{v}>{i}'"),
+        3 => format!("{k}={v}"),
+        4 => format!("K{i}=\"\""),
+        _ => format!("{k} = {v}"),
+    };
+    out.extend_from_slice(s.as_bytes());
+}
+
+/// a start tag with `n` attributes (`style` = 6: cycle through all styles), then a second tag (the counter is reset), then an end tag
+fn many_attrs_doc(n: usize, style: usize, selfclose: bool) -> Vec<u8> {
+    let mut d = b"<div".to_vec();
+    for i in 0..n {
+        d.push(if i % 7 == 3 { b'\n' } else { b' ' });
+        styled_attr(i, if style == 6 { i } else { style }, &mut d);
+    }
+    d.extend_from_slice(if selfclose { b"/>" } else { b">" });
+    d.extend_from_slice(b"<b x=1 y>t</b></div>");
+    d
+}
+
+/// every white-space position of a tag, with `w` as the white space; the pieces are independent tags
+fn ws_doc(w: &[u8]) -> Vec<u8> {
+    const T: &[&str] = &[
+        "<a~b=1>", "<a~>", "<a~/>", "<a b=1~c=2>", "<a b~c>", "<a b~=1>", "<a b=~1>", "<a b~=~\"1\"~c~=~'2'~>", "<a b=1~/>", "<a b=1~>", "<a b=\"1\"~>", "<a b='1'~/>", "<a b~/>",
+        "<a b=\"x~y\" c='x~y'>", "</a~>", "</a~b>", "<!DOCTYPE~html>", "<!DOCTYPE~~html~>", "<!doctype~>", "<~a>", "</~a>", "<a/~>", "<a~~b~~=~~c~~>", "<br~/~>",
+        "<title>x</title~>y</title>", "<script>x</script~>y</script>", "<textarea~>x</textarea~z>y</textarea~/>", "<script~>x</script~", "x~y", "<!--~-->", "<title~a=b>x</title>",
+    ];
+    let mut d = Vec::new();
+    for t in T {
+        for b in t.bytes() {
+            if b == b'~' {
+                d.extend_from_slice(w);
+            } else {
+                d.push(b);
+            }
+        }
+        d.push(b'|');
+    }
+    d
+}
+
+fn letters(n: usize, salt: usize, out: &mut Vec<u8>) {
+    for i in 0..n {
+        out.push(b'a' + ((i * 7 + salt) % 26) as u8);
+    }
+}
+
+/// tag name / attribute key / attribute values / text / comment / raw text / script / doctype of `n` bytes each
+fn long_doc(n: usize) -> Vec<u8> {
+    let mut d = Vec::new();
+    d.push(b'<');
+    letters(n, 0, &mut d);
+    d.extend_from_slice(b" x=1>");
+    letters(n, 1, &mut d); // text
+    d.extend_from_slice(b"<a v=\"");
+    letters(n, 2, &mut d);
+    d.extend_from_slice(b"\" w='");
+    letters(n, 3, &mut d);
+    d.extend_from_slice(b"' u=");
+    letters(n, 4, &mut d);
+    d.push(b' ');
+    letters(n, 5, &mut d); // long key
+    d.extend_from_slice(b"=1><!--");
+    letters(n, 6, &mut d);
+    d.extend_from_slice(b"--><title>");
+    letters(n, 7, &mut d);
+    d.extend_from_slice(b"</title><script>");
+    letters(n, 8, &mut d);
+    d.extend_from_slice(b"</script><!DOCTYPE ");
+    letters(n, 9, &mut d);
+    d.extend_from_slice(b"></");
+    letters(n, 0, &mut d);
+    d.extend_from_slice(b">\xc3\xa9");
+    d
+}
+
+fn nest_doc(depth: usize) -> Vec<u8> {
+    let mut d = Vec::new();
+    for i in 0..depth {
+        d.extend_from_slice(if i % 3 == 0 { b"<div c=1>" } else { b"<p>" });
+    }
+    d.extend_from_slice(b"deep");
+    for i in (0..depth).rev() {
+        d.extend_from_slice(if i % 3 == 0 { b"</div>" } else { b"</p>" });
+    }
+    d
+}
+
+/// the fixed boundary cases
+fn boundary_cases(emit: &mut dyn FnMut(Value)) {
+    for &n in ATTR_COUNTS {
+        emit(json!({"bytes": hex(&many_attrs_doc(n, 6, n % 2 == 0)), "family": "many-attrs"}));
+    }
+    for &n in &[255usize, 256, 257] {
+        for style in 0..4 {
+            emit(json!({"bytes": hex(&many_attrs_doc(n, style, false)), "family": "many-attrs"}));
+        }
+    }
+    for w in WS_BYTES {
+        emit(json!({"bytes": hex(&ws_doc(w)), "family": "ws"}));
+    }
+    for &n in LONG_LENS {
+        emit(json!({"bytes": hex(&long_doc(n)), "family": "long"}));
+    }
+    for &n in NEST_DEPTHS {
+        emit(json!({"bytes": hex(&nest_doc(n)), "family": "nest"}));
+    }
+}
+
+/// a random member of the boundary families (kept small: this is a share of the random cases)
+fn rand_boundary(rng: &mut Prng) -> Vec<u8> {
+    match rng.below(4) {
+        0 => {
+            let n = (if rng.chance(1, 16) { 1000 } else { *rng.pick(&ATTR_COUNTS[..9]) }) + rng.below(2);
+            many_attrs_doc(n, rng.below(7), rng.chance(1, 2))
+        }
+        1 => {
+            // a random tag with random (near-)white-space bytes at its white-space positions
+            let mut d = Vec::new();
+            let k = rng.range(1, 5);
+            for _ in 0..k {
+                let t = format!(
+                    "<{}{}~{}~=~{}~{}~{}>",
+                    *rng.pick(&["", "/", "!DOCTYPE"]),
+                    rand_name(rng),
+                    *rng.pick(&["b", "id", "B"]),
+                    *rng.pick(&["1", "\"1\"", "'1'", ""]),
+                    *rng.pick(&["c", "", "c=2"]),
+                    *rng.pick(&["", "/"])
+                );
+                for b in t.bytes() {
+                    if b == b'~' {
+                        if rng.chance(2, 3) {
+                            d.extend_from_slice(rng.pick(WS_BYTES));
+                        }
+                    } else {
+                        d.push(b);
+                    }
+                }
+            }
+            d
+        }
+        2 => {
+            let n = if rng.chance(1, 16) { *rng.pick(LONG_LENS) } else { *rng.pick(&LONG_LENS[..9]) };
+            let n = n + rng.below(3) - 1;
+            let mut d = Vec::new();
+            match rng.below(6) {
+                0 => {
+                    d.push(b'<');
+                    letters(n, 0, &mut d);
+                    d.extend_from_slice(b">x");
+                }
+                1 => {
+                    d.extend_from_slice(b"<a b=\"");
+                    letters(n, 1, &mut d);
+                    d.extend_from_slice(b"\">");
+                }
+                2 => {
+                    letters(n, 2, &mut d);
+                    d.extend_from_slice(b"<p>");
+                }
+                3 => {
+                    d.extend_from_slice(b"<!--");
+                    letters(n, 3, &mut d);
+                    d.extend_from_slice(b"-->");
+                }
+                4 => {
+                    d.extend_from_slice(b"<style>");
+                    letters(n, 4, &mut d);
+                    d.extend_from_slice(b"</style>");
+                }
+                _ => {
+                    d.extend_from_slice(b"<script>");
+                    letters(n, 5, &mut d);
+                    d.extend_from_slice(b"</script>");
+                }
+            }
+            d
+        }
+        _ => nest_doc(*rng.pick(NEST_DEPTHS) / (1 + rng.below(4)) + rng.below(3)),
+    }
+}
+
 /// context prefixes for the exhaustive suffix enumeration
 const CONTEXTS: &[&str] = &[
     "", "<script>", "<script><!--", "<script><!--<script>", "<script><!--<script", "<title>", "<textarea>", "<style>", "<plaintext>", "<!--", "<![CDATA[",
@@ -332,6 +534,8 @@ const CONTEXTS: &[&str] = &[
 
 fn gen(args: &Args, emit: &mut dyn FnMut(Value)) {
     let mut rng = Prng::new(args.seed);
+    // the deterministic boundary families come first, in every tier
+    boundary_cases(emit);
     if args.tier == "thorough" {
         // exhaustive small scopes, in blocks; sizes via gen_args: --exh-len L (all strings of length <= L),
         // --ctx-len M (all suffixes of length <= M after every context prefix)
@@ -378,6 +582,11 @@ fn gen(args: &Args, emit: &mut dyn FnMut(Value)) {
         }
     }
     for i in 0..args.n {
+        // 1 in 25: a random member of the boundary families
+        if i % 25 == 24 {
+            emit(json!({"bytes": hex(&rand_boundary(&mut rng)), "family": "boundary-random"}));
+            continue;
+        }
         let bytes: Vec<u8> = match i % 10 {
             0..=4 => gen_doc(&mut rng),
             5..=6 => {
@@ -485,6 +694,9 @@ fn run(case: &Value) -> Obs {
     }
     if !cdata {
         o.tags.push("no-cdata".to_string());
+    }
+    if let Some(f) = s(case, "family") {
+        o.tags.push(format!("family:{f}"));
     }
     kinds_tags(&mut o, one.kinds);
     if std::str::from_utf8(&bytes).is_err() {
